@@ -74,7 +74,11 @@ pub fn stuck(slots: &Arc<Mutex<Vec<&'static Slot>>>) -> Option<(u64, usize)> {
     let now = now_ms();
     for slot in slots.lock().unwrap().iter() {
         let t = slot.started_ms.load(Ordering::Acquire);
-        if t != 0 && now.saturating_sub(t) > LIMIT_S * 1000 {
+        // a whole simulated run (op index usize::MAX: the checks that do not publish single
+        // operations) normally takes micro- to milliseconds, the largest shapes about a second:
+        // six times the per-operation limit
+        let limit = if slot.op_index.load(Ordering::Relaxed) == usize::MAX { LIMIT_S * 6 } else { LIMIT_S };
+        if t != 0 && now.saturating_sub(t) > limit * 1000 {
             return Some((
                 slot.run_index.load(Ordering::Relaxed),
                 slot.op_index.load(Ordering::Relaxed),
